@@ -27,6 +27,16 @@ def specBytes (dest : String) (written ts : Bytes) (lvl : Nat) (m : Bytes) (tseq
 def step (_ : Unit) (op impl : String) : Unit × DrvOut :=
   match words op with
   | ["reset"] => ((), { model := "ok" })
+  | ["conc", k, m, _structured] =>
+    -- k goroutines × m records through one Logger: per destination every line a whole record, every record once
+    match k.toNat?, m.toNat? with
+    | some k, some m =>
+      let one := s!"lines={k * m},bad=0,missing=0,dup=0"
+      let model := s!"stdout:{one} file:{one}"
+      let spec := if impl == model then "ok"
+        else s!"FAIL concurrent Log calls: records are torn, missing or duplicated, or a line is not a whole (JSON) record — {impl}"
+      ((), { model, spec })
+    | _, _ => ((), { model := "bad-op" })
   | ["log", lvl, _sec, _nsec, _off, _fmt, _arg, msgH, tsH, _np] =>
     match lvl.toNat?, Hex.decode msgH, Hex.decode tsH with
     | some lvl, some m, some ts =>
